@@ -43,6 +43,8 @@ pub struct Problem {
     pub spec: Spec,
     pub world: World,
     pub start: Vec<f64>,
+    /// further entries of the problem definition's start list (after `start`)
+    pub extra_starts: Vec<Vec<f64>>,
     pub goal: GoalSpec,
     /// set by the generator when no valid path can exist (reason recorded)
     pub infeasible: Option<String>,
@@ -124,13 +126,15 @@ impl GoalSpec {
 impl Problem {
     pub fn to_json(&self) -> Value {
         json!({"spec":self.spec.to_json(),"world":self.world.to_json(),"start":fjs(&self.start),
-               "goal":self.goal.to_json(),"infeasible":self.infeasible,"tags":self.tags})
+               "goal":self.goal.to_json(),"infeasible":self.infeasible,"tags":self.tags,
+               "extra_starts":self.extra_starts.iter().map(|x| fjs(x)).collect::<Vec<_>>()})
     }
     pub fn from_json(v: &Value) -> Problem {
         Problem {
             spec: Spec::from_json(&v["spec"]),
             world: World::from_json(&v["world"]),
             start: parse_fs(&v["start"]),
+            extra_starts: v["extra_starts"].as_array().map(|a| a.iter().map(parse_fs).collect()).unwrap_or_default(),
             goal: GoalSpec::from_json(&v["goal"]),
             infeasible: v["infeasible"].as_str().map(|s| s.to_string()),
             tags: v["tags"].as_array().map(|a| a.iter().filter_map(|x| x.as_str().map(|s| s.to_string())).collect()).unwrap_or_default(),
@@ -667,6 +671,7 @@ pub fn gen_problem(r: &mut Sm, spec: &Spec, host: Hostility) -> Problem {
         spec: spec.clone(),
         world,
         start,
+        extra_starts: vec![],
         goal: GoalSpec { centre: gc, radius, mode, fail_at: None, window: None },
         infeasible,
         tags,
